@@ -616,7 +616,7 @@ def main():
             run_case_json(ck, c, scratch, use_model)
         if use_model:
             calendar_cases(ck, ck.rng, ck.budget(300, 5000))
-        explore(ck, ck.budget(300, 5000), scratch, use_model, zip_share=0.04 if ck.tier == "quick" else 0.15)
+        explore(ck, ck.budget(260, 5000), scratch, use_model, zip_share=0.04 if ck.tier == "quick" else 0.15)
         if ck.broken() and not ck.violations:
             explore(ck, 1500, scratch, use_model=False)
     finally:
